@@ -167,7 +167,11 @@ def _methods_named(index: RepoIndex, name: str) -> List[Func]:
 
 
 def _plain_receiver(e: ast.AST) -> bool:
-    """a name other than self / cls, or an attribute chain on one (`state.agent`)"""
+    """a name other than self / cls, an attribute chain on one (`state.agent`), or a record
+    built on the spot from such things (`Observation(grid, agent).masked(v)`)"""
+    if isinstance(e, ast.Call) and isinstance(e.func, ast.Name) and e.func.id[:1].isupper() \
+            and not e.keywords and e.args and all(_plain_receiver(a) for a in e.args):
+        return True
     while isinstance(e, ast.Attribute):
         e = e.value
     return isinstance(e, ast.Name) and e.id not in ('self', 'cls')
